@@ -281,7 +281,7 @@ def ops(rng):
     return T
 
 
-SHAPES = ["k", "1", "k1", "1k", "mixed", "mk"]
+SHAPES = ["k", "1", "k1", "1k", "mixed", "mk", "mk1"]
 PERPENDICULAR_FAMILY = ("dist-pl2", "dist-pl3", "dist-pe3", "line.perpendicular", "line.project", "line.mirror", "line3.project",
                         "plane.project", "plane.perpendicular", "plane.mirror", "polygon3.contains", "polygon3.area-then-contains")
 
@@ -298,18 +298,25 @@ def run(ctx, n, prefix="C04", only=None, patterns=None):
         k = 1 if pattern == "1" else rng.randint(2, 3)
         m = rng.randint(2, 3)
         try:
-            tuples = [gen() for _ in range(k * (m if pattern == "mk" else 1))]
+            tuples = [gen() for _ in range(k * (m if pattern in ("mk", "mk1") else 1))]
         except Exception:  # noqa: BLE001
             continue
         nargs = len(tuples[0])
-        if pattern in ("mixed", "mk") and (nargs < 2 or kw.get("nomix")):
+        if pattern in ("mixed", "mk", "mk1") and (nargs < 2 or kw.get("nomix")):
             pattern = "k"
             tuples = tuples[:k]
-        shape = {"k": (k,), "1": (1,), "k1": (k, 1), "1k": (1, k), "mixed": (k,), "mk": (m, k)}[pattern]
-        single_pos = rng.randrange(nargs) if pattern in ("mixed", "mk") else None
+        shape = {"k": (k,), "1": (1,), "k1": (k, 1), "1k": (1, k), "mixed": (k,), "mk": (m, k), "mk1": (m, k)}[pattern]
+        single_pos = rng.randrange(nargs) if pattern in ("mixed", "mk", "mk1") else None
         try:
             colls = []
-            if pattern == "mk":
+            if pattern == "mk1":
+                # argument single_pos: a collection of shape (m, k); every other argument: one single object
+                grid = [tuple(tuples[i][a] if a == single_pos else tuples[0][a] for a in range(nargs)) for i in range(m * k)]
+                for a in range(nargs):
+                    colls.append(stack_objs([t[a] for t in tuples], (m, k)) if a == single_pos else tuples[0][a])
+                tuples = grid
+                single_pos = f"(m,k) argument {single_pos}, others single"
+            elif pattern == "mk":
                 # argument single_pos: all m*k objects; every other argument: the k objects of the first row
                 grid = []
                 for i in range(m):
@@ -346,7 +353,7 @@ def run(ctx, n, prefix="C04", only=None, patterns=None):
             # a different error class; anything else is outside this stream (C02 covers the masks)
             continue
         if res[0] != "ok":
-            if pattern == "mk" and name in PERPENDICULAR_FAMILY:
+            if pattern in ("mk", "mk1") and name in PERPENDICULAR_FAMILY:
                 # recorded finding: the mask-based construction of perpendiculars does not broadcast collections with
                 # different numbers of collection axes
                 ctx.disagree(f"{prefix}:coll:perpendicular-family:mk:raises", desc, "values of the single calls", f"{res[1]}: {str(res[2])[:200]}", replay=[desc])
@@ -374,3 +381,38 @@ def run(ctx, n, prefix="C04", only=None, patterns=None):
                 break
         if bad:
             ctx.disagree(f"{prefix}:coll:{name}:{pattern}", desc, "the single-object result at every position", bad[1], replay=[desc])
+
+
+def big(ctx, n, prefix="C04"):
+    """collections beyond the internal batch threshold (64 matrices), with one or two collection axes, integer / float dtype and
+    unit / small overall scale: T * line and T.inverse() at every position against the single transformations"""
+    import geometer as g
+    rng = ctx.rng
+    for k in range(n):
+        shape = rng.choice([(64,), (70,), (8, 8), (4, 16)])
+        size = int(np.prod(shape))
+        dtype = rng.choice([int, float])
+        scale = 1 if dtype is int else rng.choice([1.0, 1e-3])
+        mats = []
+        while len(mats) < size:
+            m = np.array([[rng.randint(-3, 3) for _ in range(3)] for _ in range(3)])
+            if abs(round(np.linalg.det(m))) >= 1:
+                mats.append(m)
+        arr = np.array(mats, dtype=dtype).reshape(shape + (3, 3)) * scale
+        T = g.TransformationCollection(arr)
+        l = g.Line(float(rng.randint(1, 4)), float(rng.randint(-4, 4)), float(rng.randint(-4, 4)))
+        desc = f"big collection shape={shape} dtype={dtype.__name__} scale={scale}: T * {l} and T.inverse(); first matrix {mats[0].tolist()}"
+        ctx.case(desc, nontrivial=True)
+        ctx.count(f"coll:big:{len(shape)}axes:{dtype.__name__}:{scale}")
+        r = call_impl(lambda: (T * l, T.inverse()))
+        if r[0] != "ok":
+            ctx.disagree(f"{prefix}:coll:big:raises:{r[1]}", desc, "the results of the single transformations", f"{r[1]}: {str(r[2])[:200]}", replay=[desc])
+            continue
+        a = np.asarray(r[1][0].array, dtype=float).reshape(size, 3)
+        inv = np.asarray(r[1][1].array, dtype=float).reshape(size, 3, 3)
+        flat = arr.reshape(size, 3, 3)
+        for i in rng.sample(range(size), 12):
+            t = g.Transformation(flat[i])
+            if not proj_close_nn(a[i], np.asarray((t * l).array, dtype=float), 1e-8) or not proj_close_nn(inv[i], np.asarray(t.inverse().array, dtype=float), 1e-8):
+                ctx.disagree(f"{prefix}:coll:big:value", desc, f"position {i}: what Transformation({flat[i].tolist()}) gives", "differs", replay=[desc])
+                break
